@@ -10,7 +10,7 @@ cleanup() { git -C /repo worktree remove --force "$wt" 2>/dev/null; rm -rf "$wt"
 trap cleanup EXIT
 if ! git -C "$wt" apply --check "$patch" 2>/dev/null; then echo "PATCH-DOES-NOT-APPLY $patch"; exit 3; fi
 git -C "$wt" apply "$patch"
-cd /verif && QUANSINO_REPO="$wt" ./check "$prop" "$tier" > /tmp/try_patch_$$.log 2>&1
+cd /verif && VERIF_SCRATCH_OUT="$wt/_verif_out" QUANSINO_REPO="$wt" ./check "$prop" "$tier" > /tmp/try_patch_$$.log 2>&1
 rc=$?
 grep -E "^VIOLATION|^  signature|^OK|MACHINERY" /tmp/try_patch_$$.log | cut -c1-260 | head -${LINES_MAX:-4}
 echo "rc=$rc"
